@@ -53,7 +53,8 @@ class Cfg:
     """One constructor configuration.  ``L`` is THE latency knob (service time, link latency,
     disk latency, set-up latency ...); ``hold`` is how long a harness worker keeps a capacity."""
 
-    def __init__(self, name, L, t0_ns=int(T0_S * NS), d_ns=int(D_S * NS), per_table=None, reduced=False, pair=None):
+    def __init__(self, name, L, t0_ns=int(T0_S * NS), d_ns=int(D_S * NS), per_table=None, reduced=False, pair=None, via=None):
+        self.via = via                  # None | "prep" | "hop": how requests with offset > 0 reach the component
         self.pair = pair                # (period, interval) of "long timer vs periodic timer" pairs, see PI()
         self.per_table = per_table      # None: timer periods as written (dyadic); else nominal -> decimal value
         self.reduced = reduced          # timer-centric configuration: only a few arrival patterns
@@ -95,6 +96,13 @@ CFGS = {
     "eq": Cfg("eq", D_S),            # latency == grid step: arrivals land ON completion instants
     "long": Cfg("long", 2.5 * D_S),  # latency spans all arrivals: every request overlaps
     "short": Cfg("short", D_S / 2),  # latency < grid step (thorough)
+    # hold time == arrival spacing, and a request with offset k > 0 is not a pre-scheduled event but a process that
+    # started at t0 and reaches the component through a continuation due exactly at t0 + k*d: "a third party whose
+    # attempt lands exactly on a release instant while a waiter is parked".  prep: that continuation was created
+    # BEFORE the holder's release continuation (runs first at the tie); hop: created AFTER it (runs between the
+    # release and the resumption of the waiter it woke).  Run for the drivers marked ``contention = True``.
+    "eq_prep": Cfg("eq_prep", D_S, via="prep"),
+    "eq_hop": Cfg("eq_hop", D_S, via="hop"),
     # millisecond grid 1.001 s, 1.003 s, 1.005 s ...: instants t for which the float round trip
     # Instant.from_seconds(t.to_seconds()) lands 1 ns BEFORE t (a component that re-derives "now" through
     # float seconds emits into the past exactly there)
@@ -139,10 +147,10 @@ def R(x):
 
 
 TIER = {
-    "quick": {"cfgs": ["zero", "eq", "long", "odd_zero", "odd_eq", "dec_a", "dec_b", "dec_c", "dec_d", "dec_e"],
+    "quick": {"cfgs": ["zero", "eq", "eq_prep", "eq_hop", "long", "odd_zero", "odd_eq", "dec_a", "dec_b", "dec_c", "dec_d", "dec_e"],
               "max_req": 3,
               "offsets": [0, 1, 2]},
-    "thorough": {"cfgs": ["zero", "short", "eq", "long", "odd_zero", "odd_eq", "dec_a", "dec_b", "dec_c", "dec_d",
+    "thorough": {"cfgs": ["zero", "short", "eq", "eq_prep", "eq_hop", "long", "odd_zero", "odd_eq", "dec_a", "dec_b", "dec_c", "dec_d",
                           "dec_e"], "max_req": 4,
                  "offsets": [0, 1, 2, 3]},
 }
@@ -230,6 +238,12 @@ class Caller(Entity):
         if "c07_i" not in md:
             return self.h.drv.on_caller_event(event)
         i, op = md["c07_i"], md["c07_op"]
+        via, off = md.get("c07_via"), md.get("c07_off", 0)
+        if via and off > 0:
+            return self._via(i, op, via, off * self.h.drv.cfg.d)
+        return self._start(i, op)
+
+    def _start(self, i, op):
         h = self.h
         h.arrived.append((self.now.nanoseconds, i))
         if h.open_reqs:
@@ -238,6 +252,17 @@ class Caller(Entity):
         if hasattr(r, "send"):
             return self._wrap(i, r)
         h.completed.append(i)
+        return r
+
+    def _via(self, i, op, via, delay_s):
+        """The request is a process that started at t0 and reaches the component exactly ``delay_s`` later."""
+        if via == "hop":
+            for _ in range(4):      # pushes the creation of the due-at-t0+delay continuation behind the holders'
+                yield 0.0
+        yield delay_s
+        r = self._start(i, op)
+        if hasattr(r, "send"):
+            r = yield from r
         return r
 
     def _wrap(self, i, gen):
@@ -280,6 +305,7 @@ class Drv:
     family = "misc"
     covers: tuple = ()
     ops: tuple = ("req",)
+    contention = False    # capacity / lock / pool style component: also run the eq_prep / eq_hop configurations
     cfgs = None           # restrict configurations (names) if a component has no latency knob: ("zero",)
     end_s = END_S
 
@@ -422,8 +448,9 @@ def run_scenario(drv_cls, cfg, pattern, *, keep_trace=False, check_instances=Fal
                 sim.schedule(list(init))
             reqs = []
             for i, (off, op) in enumerate(pattern):
-                reqs.append(Event(time=Instant(cfg.arrival_ns(off)), event_type=op, target=h.caller,
-                                  context={"metadata": {"c07_i": i, "c07_op": op}}))
+                via = getattr(cfg, "via", None)
+                reqs.append(Event(time=Instant(cfg.arrival_ns(0 if via else off)), event_type=op, target=h.caller,
+                                  context={"metadata": {"c07_i": i, "c07_op": op, "c07_via": via, "c07_off": off}}))
             sim.schedule(reqs)
 
             # advisory attribution (private; self-disabling)
